@@ -83,7 +83,8 @@ REGISTRY = {
                 "a failing patch at a random position (poisoned hunks in a random subset of its files, missing file, create-over-existing, delete-mismatch, "
                 "misordered hunks) x backup always/onfail/never/default x threads 1/2/4/16 x -q/default/-v x prior applied state x goal -a/N. "
                 "Non-trivial: the failing patch is not the first of the run, or it has several file entries; distinct by (workspace shape, configuration).",
-        "floor": floors(("failing-patch-not-first", 100), ("multi-file-failing-patch", 100), ("runs-applying-everything", 100)),
+        "floor": floors(("failing-patch-not-first", 100), ("multi-file-failing-patch", 100), ("runs-applying-everything", 100),
+                        ("failing-file-patch-followed-by-another-for-the-same-file:verbosity=default", 10)),
     },
     "C06": {
         "level_text": "differential: the same workspace pushed single-threaded and with N threads, naturally and under forced schedules (hook gates) that enumerate the run-ahead depth of the workers relative to the failing patch and perturb the save phase; tree, .pc, rejects, exit status compared; the realised interleaving is read back from the hook trace",
@@ -171,7 +172,7 @@ REGISTRY = {
         "rule": "baseline -q vs --mmap / default verbosity / -v / -vv / --color always|never / --stats / -A multiapply and combinations, over random series incl. failing ones, "
                 "zero-length source files, zero-length patch files, empty series, everything already applied, goal naming an applied patch; threads 1/4; backup always/default/never. "
                 "Non-trivial: the run fails or has at least one patch to apply; distinct by (workspace, shape, option set, configuration).",
-        "floor": floors(("shape:empty-source", 50), ("shape:empty-patch", 50), ("shape:empty-series", 50), ("shape:all-applied", 50), ("shape:goal-applied", 50), ("shape:symlinked-source", 50), ("shape:symlinked-patch", 50), ("shape:many-files-low-fd-limit", 50), ("failing-series", 200), ("options:--mmap", 100)),
+        "floor": floors(("shape:empty-source", 50), ("shape:empty-patch", 50), ("shape:empty-series", 50), ("shape:all-applied", 50), ("shape:goal-applied", 50), ("shape:symlinked-source", 50), ("shape:symlinked-patch", 50), ("shape:many-files-low-fd-limit", 50), ("shape:page-multiple-source", 50), ("failing-series", 200), ("options:--mmap", 100)),
     },
     "C15": {
         "level_text": "real pushes under strace on a workspace whose files are hard-linked into a twin tree; inode identity, twin content and every syscall on bystander files are checked",
